@@ -166,6 +166,27 @@ func regexShape(p *position) {
 	}
 }
 
+// regexKinds: a position that takes a regular expression as a comparison value (label matchers, label filters, TraceQL and
+// tag comparisons). Escape.tla MatcherValues: besides the rendering with the (anchored) pattern a planner may compare with the
+// pattern's LITERAL TEXT when the pattern is a literal (regexp/syntax OpLiteral; the text is the string itself when
+// regexp.QuoteMeta leaves it alone). Both values are acceptable in the string's literal; the statements may be those of a
+// harmless literal pattern or of a harmless pattern with a metacharacter.
+func regexKinds(p *position) {
+	base := p.Want
+	p.Want = func(eff string) []lit {
+		w := append([]lit{}, base(eff)...)
+		if l, ok := regexLiteral(eff); ok {
+			return append(w, lit{Val: l})
+		}
+		if eff == "" {
+			return append(w, lit{Val: ""}) // the empty pattern, anchored, is equality with the empty string
+		}
+		return append(w, w[0]) // fixed length: slots are indices
+	}
+	p.Alts = append(p.Alts, marker+".*")
+	p.Baselines[altKey(0)] = marker + ".*"
+}
+
 func likeWant(eff string) []lit { return []lit{{Like: true, Val: eff}} }
 
 // emptyShape: an empty string legitimately renders a different statement in some positions (drop a="" drops by name
@@ -520,6 +541,13 @@ func allPositions() []*position {
 				"leftFrom": {fmt.Sprint(startMs)}, "leftUntil": {fmt.Sprint(endMs)}, "rightFrom": {fmt.Sprint(startMs)}, "rightUntil": {fmt.Sprint(endMs)}}
 			return &request{Method: "GET", Path: "/pyroscope/render-diff", Query: q}, eff, true
 		}})
+	// regular-expression operators outside the line filters (which have regexShape): the rendering may depend on the kind
+	// of pattern -- see Escape.tla MatcherValues
+	for _, p := range ps {
+		if (strings.Contains(p.Name, "=~") || strings.Contains(p.Name, "!~")) && !strings.Contains(p.Name, "linefilter") && p.Want != nil && p.Group != "ident" {
+			regexKinds(p)
+		}
+	}
 	for _, p := range ps {
 		if p.Family == "" {
 			p.Family, p.Hosts = p.Name, 1
